@@ -55,7 +55,7 @@ theorem select_layout (c : Ctx) (fl : QFlags) (from_ : List Src) (withs : List (
           (stmtCtx c fl from_ joins).q fl.alias) := by
   have hne : selects.isEmpty = false := by cases selects <;> simp_all
   rw [renderQuery_eq_1]
-  simp only [hcls, hdel, hne, queryIsEmpty, Option.isSome_none, Bool.false_and, Bool.and_false, Bool.or_false, Bool.not_false,
+  simp only [hinted, hcls, hdel, hne, queryIsEmpty, Option.isSome_none, Bool.false_and, Bool.and_false, Bool.or_false, Bool.not_false,
     Bool.and_true, Bool.false_or, Bool.false_eq_true, if_false, selectBody, stmtCtx, selectPrefix, fromClause, opt,
     List.append_assoc, reduceCtorEq, Bool.and_self, List.nil_append, List.append_nil, decide_false, Bool.true_and,
     Bool.not_true]
